@@ -5,8 +5,12 @@ scope with its own context, handlers submitted after Wait on it; handler submiss
 Tie to /repo: harness/cmd/pipeline family c16 (handler subsets x failing handlers x body shapes
 enumerated, nested tasks, concurrently failing siblings) and the STEERED family c16s (the gate
 controller holds one handler of a try block at its first command until it has seen the fate of the
-other; `stall` if nothing happens), traces decided by the compiled monitor.  PARTIAL level as C14.
+other; `stall` if nothing happens), traces decided by the compiled monitor; and a STRUCTURAL tie:
+harness/cmd/pipefacts (go/ast) regenerates lean/Goat/Tie/ExtractedPipeC16.lean on every run and the theorems tie_*
+of lean/Goat/Tie/PipeC16.lean compare the skeleton of pipc.Try with what the model's try steps assume
+(checks/pipe_tie.py).  PARTIAL level as C14.
 """
+import pipe_tie
 import pipeline_common as pc
 
 META = dict(
@@ -25,19 +29,33 @@ META = dict(
              "verified trace monitor (accepts_iff, model_runs_accepted). PARTIAL: the implementation is tied by trace "
              "conformance of a real app (pip:try through the terminal, probe events, handler submissions seen by a wrapper "
              "around the PipRunner service, Err() of the owner task and of the app scope), free-running (sampled) and steered "
-             "(288 enumerated combinations per round, 3 rounds quick / 40 thorough).",
+             "(288 enumerated combinations per round, 3 rounds quick / 40 thorough). "
+             "In addition a structural tie (go/ast, syntactic): theorems tie_* of Goat/Tie/PipeC16.lean fail by name when "
+             "pipc.Try moves away from what the model's try steps assume: tie_try_separated_scope (body in scope.New with "
+             "its own context, Data/Event/Injector from the parent), tie_try_parent_signed_on, "
+             "tie_try_handlers_after_body_wait (the goroutine starts with Wait on the body's scope), "
+             "tie_try_handler_order_and_selection (finally first and unconditionally, fail iff catchErr != nil, success iff "
+             "catchErr == nil, a refused submission is appended to the parent's base context and ends the goroutine), "
+             "tie_try_handlers_in_parent_scope, tie_try_one_namespace, tie_runcommand_scope, tie_task_scope_label.",
         design_ref="DESIGN.md 3 C16"),
     level_note="Partial, as C14. Handlers are observed by their first probe command and by the outcome of their submission. "
                "'Never starts while the other handler is held' is decided through the explicit `stall` event after a generous "
                "wait (10 s), never through 'did not happen within t'. The witness of the repaired crash (a handler submitted after "
-               "an earlier handler of the same try had failed ran detached from its owner) is replayed 25 / 3000 times per run.",
+               "an earlier handler of the same try had failed ran detached from its owner) is replayed 25 / 3000 times per run. "
+               + pipe_tie.META_NOTE % ("C16", "C16", "pipc.Try (its submissions, their scopes and namespaces, the handler "
+                                       "goroutine), scope.New/Wait/AddTasks/DoneTask, termexec.RunCommand"),
     technique="Lean 4 proof on the pipeline LTS model (invariant, progress under steering by induction on nesting depth) + verified "
-              "trace monitor on recorded executions of the real pip:try, free-running and under steered schedules",
+              "trace monitor on recorded executions of the real pip:try, free-running and under steered schedules "
+              "+ structural tie (go/ast normal forms of pipc.Try compared with the model's assumptions by Lean `decide`/`rfl`)",
 )
 
 
 def run(ctx):
-    pc.run_family(ctx, "C16", "c16", 3000, 200000, ["C16", "C14"], steered=(288 * 3, 288 * 40))
+    try:
+        pc.run_family(ctx, "C16", "c16", 3000, 200000, ["C16", "C14"], steered=(288 * 3, 288 * 40),
+                      obligations=pipe_tie.obligations, tie_modules=[pipe_tie.tie_module(ctx)])
+    finally:
+        pipe_tie.restore(ctx)   # a run against a scratch worktree leaves the extracted facts of /repo behind
 
 
 def replay(ctx, path):
